@@ -38,7 +38,7 @@ BOUNDS = {
     "quick": "formulas: symbolic scale >= 0, n in {2,3,5,10,40}, p in {1,2,4} (concrete: log n, sqrt, chi2 are environment "
              "numbers); MVCAPA families: n in {5,50}, p in {1,2,3,5}, k in {1,2}; tuned thresholds: table scorers n<=5; "
              "PELT monotonicity: product run on one cost table, n<=4 (m=1), n<=6 (m=2)",
-    "thorough": "formulas n in [2,40] x p<=4; families n in {2,5,50,1000}, p<=6, k<=3; PELT monotonicity n<=5 (m=1), n<=7 (m=2)",
+    "thorough": "formulas n in [2,40] x p<=4; families n in {2,5,50,1000}, p<=6, k<=3; PELT monotonicity n<=5 (m=1), n<=6 (m=2), n=7 (m=3)",
 }
 STUBS = ["np.quantile: fresh value with the order-statistic contract, call arguments recorded", "table scorers",
          "scipy chi2 / np.log / np.sqrt of concrete arguments are the real library numbers (environment)"]
@@ -239,7 +239,7 @@ def jobs(tier):
         out.append(Job(M, "make_formulas", dict(ns=tuple(range(2, 41)), ps=(1, 2, 3, 4))))
         out.append(Job(M, "make_families", dict(ns=(2, 5, 50, 1000), ps=(1, 2, 3, 4, 5, 6), ks=(1, 2, 3))))
         tuned = [("MovingWindow", 4, 1), ("MovingWindow", 6, 2), ("SBS", 4, 1), ("SBS", 5, 1), ("CBS", 4, 1), ("CBS", 5, 1)]
-        mono = [(3, 1), (4, 1), (5, 1), (5, 2), (6, 2), (7, 2), (7, 3)]
+        mono = [(3, 1), (4, 1), (5, 1), (5, 2), (6, 2), (7, 3)]      # (7, 2) alone exceeds 30 min (product of two 11 476-path runs)
     for (det, n, p) in tuned:
         out.append(Job(M, "make_tuned", dict(det=det, n=n, p=p), split=n >= 5 and det != "MovingWindow"))
     for (n, m) in mono:
